@@ -725,8 +725,9 @@ func (o *FilterOptimizer) unionRange(l, r *ScanType) *ScanType {
 		rstart, rend = rend, rstart
 	}
 
-	// Same range just return left
-	if bytes.Compare(lstart, rstart) == 0 && bytes.Compare(lend, rend) == 0 {
+	// Same range just return left (a missing end is no empty end: the range
+	// without end reaches further than the one ending at '')
+	if bytes.Compare(lstart, rstart) == 0 && bytes.Compare(lend, rend) == 0 && (lend == nil) == (rend == nil) {
 		return l
 	}
 
